@@ -1,3 +1,12 @@
-from .cli import main
+import os
 import sys
+
+# Reproducible runs: the order in which assertions and terms reach the solver follows Python's set / dict iteration
+# order, which depends on the string hash seed; pin it so that the same tree always yields the same queries.
+if os.environ.get("PYTHONHASHSEED") != "0" and not os.environ.get("SEGVC_NO_PIN"):
+    os.environ["PYTHONHASHSEED"] = "0"
+    os.execv(sys.executable, [sys.executable, "-m", "segvc"] + sys.argv[1:])
+
+from .cli import main  # noqa: E402
+
 sys.exit(main())
